@@ -51,6 +51,9 @@ func runC17(t *testing.T, r *engine.Run) {
 	}
 	specs := pickClients(tp, 2, false)
 	r.Logf("objects=%v clients=%v", wd.existingKeys(), clientNames(specs))
+	for _, o := range objs {
+		r.Logf("  %s ctime=+%ds %s", cfgKey(o), int(o.CreationTimestamp.Sub(wlT0).Seconds()), compactSpec(o.Spec))
+	}
 
 	type replica struct {
 		views   map[string]map[string]map[string][]byte
